@@ -1110,7 +1110,7 @@ func specSregBytesAt(out []byte, off int, enc int) bool {
 }
 
 //@ func handlePUSH
-//@ props C01 C03
+//@ props C01 C03 C18
 //@ option no-panic-obligations unroll-appends
 //@ requires ctx != nil && (ctx.BitMode == cpu.MODE_16BIT || ctx.BitMode == cpu.MODE_32BIT)
 //@ calls[mode] (*ng_operand.OperandPegImpl).WithBitMode : arg1 == ctx.BitMode
@@ -1126,7 +1126,7 @@ func specSregBytesAt(out []byte, off int, enc int) bool {
 //@ assigns OperandPegImpl.bitMode, OperandType[]
 
 //@ func handlePOP
-//@ props C01 C03
+//@ props C01 C03 C18
 //@ option no-panic-obligations unroll-appends
 //@ requires ctx != nil && (ctx.BitMode == cpu.MODE_16BIT || ctx.BitMode == cpu.MODE_32BIT)
 //@ calls[mode] (*ng_operand.OperandPegImpl).WithBitMode : arg1 == ctx.BitMode
